@@ -99,6 +99,9 @@ def run(pid, tier, replay=None):
                 b += netmsg.MAGIC + (real_max + 1).to_bytes(4, "big") + b"xx"
             elif p == "maxlen":
                 b += netmsg.MAGIC + b"\xff\xff\xff\xff" + b"xx"
+            elif isinstance(p, tuple) and p[0] == "len_then_body":        # over-limit length directly followed by a decodable body
+                mid += 1
+                b += netmsg.MAGIC + p[1].to_bytes(4, "big") + netmsg.body(msgs[p[2]], mid) + b"z" * p[3]
             elif p == "truncated":
                 body = netmsg.body(msgs[4], mid)
                 b += netmsg.MAGIC + len(body).to_bytes(4, "big") + body[:-5]
@@ -109,7 +112,9 @@ def run(pid, tier, replay=None):
                 b += netmsg.frame(body)
         return b, idmap
     shape_defs = [[7, 4], [0, 7, 4], [4, 3, 7], [7, "badmagic", 4], [4, "oversize", 7], [7, 7, 7], [3, "maxlen"], [4, "truncated"],
-                  ["badmagic0"], [1, 2], [8, 7], [7, 4, "badmagic"]]
+                  ["badmagic0"], [1, 2], [8, 7], [7, 4, "badmagic"],
+                  [7, ("len_then_body", 0xffffffff, 7, 1), 7], [("len_then_body", 0xfffffffc, 7, 4), 4], [7, ("len_then_body", 0x80000000, 7, 0)],
+                  [("len_then_body", real_max + 1, 7, 0), 7], [7, ("len_then_body", 0x7fffffff, 4, 3)]]
     if not quick:
         shape_defs += [[5], [6, 4], [0, 1, 2, 3, 4, 7, 8]]
     streams, traces, ids = [], [], []
